@@ -25,6 +25,9 @@ def classify(diag):
             if sub in k:
                 return s
         return None
+    if 'post-condition of closure' in msg:
+        # the spliced `ensures` of a closure literal (rule R3) does not follow from the closure's body
+        return 'ensures', prim, lab('failed this postcondition') or prim
     if 'postcondition not satisfied' in msg:
         return 'ensures', lab('at this exit') or prim, lab('failed this postcondition') or prim
     if 'loop invariant not satisfied' in msg or 'invariant not satisfied' in msg:
